@@ -210,7 +210,7 @@ func (C05) Execute(t *testing.T, sc *core.Scenario) *core.Result {
 			return
 		}
 		base := filepath.Base(c.Path)
-		if op == "create" && (strings.HasPrefix(base, "nbs_manifest_") || strings.HasPrefix(base, "nbs_table_") || strings.HasPrefix(base, ".dolt_prune_probe_")) {
+		if op == "create" && (strings.HasPrefix(base, "nbs_manifest_") || strings.HasPrefix(base, "nbs_table_") || strings.HasPrefix(c.Path, "tmp/") || strings.HasPrefix(base, ".dolt_prune_probe_")) {
 			return // temp-file creation runs under a process-wide mutex
 		}
 		s.YieldHere(op + ":" + fileClass(c.Path, c.Path2))
